@@ -579,6 +579,13 @@ def main():
     only = os.environ.get('C10_ONLY')
     if only:
         jobs = [j for j in jobs if only in j[0]]
+    if not only or 'e2' in only:
+        # geometric slice (E2): one refinement step on one cell with symbolic vertex coordinates
+        from vlib import e2prop
+        chk.bounds.append('E2: ONE cell per shape with symbolic vertex coordinates (triangle, convex quadrilateral, tetrahedron: general vertices; hexahedron, quadrilateral: symbolic affine image of the reference cell) refined once by the real StandardRefinery')
+        chk.functions += ['Geometry::Intern::StandardVertexRefiner (all shapes) on a SymReal vertex set', 'Geometry::Intern::StandardIndexRefiner<Shape, dim, 0>']
+        chk.assume('E2 slice: real arithmetic; volumes by closed formulas (determinant / shoelace); general trilinear hexahedra are outside (no independent polynomial volume formula at reasonable cost); for quadrilaterals "not inverted" is decided as corner determinant >= 0 under the assumption of a convex parent')
+        e2prop.run_e2(chk, e2prop.e2_harness_path('c10_e2.cpp'), 'c10_e2', timeout=40 if quick else 300, harness_args=['--bounds', '1' if quick else '2'], max_group=1)
     chk.bounds.append('E3: IndexRepresentative and CongruencySampler/CongruencyMapping for edges, triangles, quadrilaterals on arbitrary distinct 64-bit indices (all %d renumberings as concrete sigma); StandardRefinery on 1- and 2-cell meshes of every shape (quad, tria, hexa, tetra) with ONE (thorough: up to two) sub-entity numbered in any congruent way and/or the last cell in any orientation preserving numbering (symbolic, decided by solver-guided forking); mesh parts (facet / cell / edge+vertex / two faces, with and without topology) refined alongside' % sum(math.factorial(nverts(*KIND[k])) for k in KIND))
     chk.assume('FaceIndexMapping tables are the definition of the reference cell numbering (read from the real header, sanity checked against geometry)',
                'entity NUMBERS of the coarse mesh are fixed (order of first appearance); orientations / rotations are symbolic; vertex coordinates x_v = 2^v (generic position) identify parents',
